@@ -109,12 +109,28 @@ def edge_window(rng, ds):
 
 def to_info(d):
     """the dict handed to StoG.add_dataset (fresh arrays every time: add_dataset stores into the dict)"""
-    info = {k: copy.deepcopy(v) for k, v in d.items() if k not in ("x", "y", "dy", "unsorted", "int_y")}
+    info = {k: copy.deepcopy(v) for k, v in d.items() if k not in ("x", "y", "dy", "unsorted", "int_y", "mem", "again", "twin_of_prev")}
     vt = np.int64 if d.get("int_y") else float
     data = [np.array(d["x"], dtype=float), np.array(d["y"], dtype=float).astype(vt)]
     if "dy" in d:
         data.append(np.array(d["dy"], dtype=float).astype(vt))
     info["data"] = data
+    return info
+
+
+def write_columns(path, cols):
+    """a text file as StoG.read_dataset expects it (two header lines, whitespace-separated columns); repr() keeps every double exactly"""
+    with open(path, "w") as fh:
+        fh.write(f"{len(cols[0])}\n# columns\n")
+        for row in zip(*cols):
+            fh.write(" ".join(repr(float(v)) for v in row) + "\n")
+
+
+def file_info(d, path):
+    """the description dictionary of a dataset that lives in a file"""
+    info = to_info(d)
+    info.pop("data")
+    info["Filename"] = path
     return info
 
 
